@@ -457,7 +457,7 @@ func modelFinal(ins [][3]string, outDir string) ([]int, error) {
 				hi = len(ins)
 			}
 			var b strings.Builder
-			b.WriteString("From GC Require Import Base Model_Regex Model_RegexSimplify Proofs_RegexSimplify Proofs_RegexWalk Proofs_RegexWalkS Model_RegexText Proofs_RegexText.\n")
+			b.WriteString("From GC Require Import Base Model_Regex Model_RegexSimplify Proofs_RegexSimplify Proofs_RegexWalk Proofs_RegexWalkS Model_RegexText Proofs_RegexText Model_RegexParse Proofs_RegexParse.\n")
 			b.WriteString("Definition ins : list (sx * option sx * option sx) := [\n")
 			for i, in := range ins[lo:hi] {
 				if i > 0 {
@@ -465,7 +465,7 @@ func modelFinal(ins [][3]string, outDir string) ([]int, error) {
 				}
 				b.WriteString("(" + in[0] + ", " + in[1] + ", " + in[2] + ")")
 			}
-			b.WriteString("\n].\nDefinition FIN := Eval vm_compute in map (fun p => let '(t1, t2, t3) := p in ((if final_ok t1 t2 then 1 else 0) + (if text_guards_ok (final_tree t1 t2) then 2 else 0) + (match t3 with Some t => if same_meaning t1 t then 4 else 0 | None => 0 end))%N) ins.\nPrint FIN.\n")
+			b.WriteString("\n].\nDefinition FIN := Eval vm_compute in map (fun p => let '(t1, t2, t3) := p in ((if final_ok t1 t2 then 1 else 0) + (if text_guards_ok (final_tree t1 t2) then 2 else 0) + (match t3 with Some t => if same_meaning t1 t then 4 else 0 | None => 0 end))%N) ins.\nPrint FIN.\nDefinition TOP := Eval vm_compute in map (fun p => let '(t1, t2, t3) := p in if tree_text_ok (final_tree t1 t2) then 1%N else 0%N) ins.\nPrint TOP.\n")
 			path := filepath.Join(outDir, fmt.Sprintf("round2_c11_%d.v", k))
 			common.WriteFile(path, b.String())
 			args := append([]string{"600", "coqc"}, coqArgs()...)
@@ -479,7 +479,11 @@ func modelFinal(ins [][3]string, outDir string) ([]int, error) {
 				errs[k] = fmt.Errorf("round 2: no result: %s", tailStr(out, 400))
 				return
 			}
-			for _, ch := range out[fi+5:] {
+			fiEnd := strings.Index(out[fi:], "TOP =")
+			if fiEnd < 0 {
+				fiEnd = len(out) - fi
+			}
+			for _, ch := range out[fi+5 : fi+fiEnd] {
 				if ch >= '0' && ch <= '7' {
 					res[k] = append(res[k], int(ch-'0'))
 				}
@@ -489,6 +493,28 @@ func modelFinal(ins [][3]string, outDir string) ([]int, error) {
 			}
 			if len(res[k]) != hi-lo {
 				errs[k] = fmt.Errorf("round 2: %d flags for %d inputs", len(res[k]), hi-lo)
+				return
+			}
+			// tree_text_ok of the final tree: bit 3
+			ti := strings.Index(out, "TOP =")
+			if ti < 0 {
+				errs[k] = fmt.Errorf("round 2: no TOP result: %s", tailStr(out, 400))
+				return
+			}
+			j := 0
+			for _, ch := range out[ti+5:] {
+				if ch == '0' || ch == '1' {
+					if j < len(res[k]) && ch == '1' {
+						res[k][j] |= 8
+					}
+					j++
+				}
+				if ch == ':' {
+					break
+				}
+			}
+			if j != hi-lo {
+				errs[k] = fmt.Errorf("round 2: %d TOP flags for %d inputs", j, hi-lo)
 			}
 		}(k)
 	}
@@ -1291,6 +1317,7 @@ func Run(tier string, seed int64, outDir string) *common.Meta {
 	t2of := make([]string, len(pats))
 	finalCov := make([]bool, len(pats))
 	textOK := make([]bool, len(pats))
+	topOK := make([]bool, len(pats))
 	{
 		var ins [][3]string
 		var insIdx []int
@@ -1311,11 +1338,15 @@ func Run(tier string, seed int64, outDir string) *common.Meta {
 			meta.TieBroken = append(meta.TieBroken, err.Error())
 			return meta
 		}
-		nFin, nText, nBoth, nCert := 0, 0, 0, 0
+		nFin, nText, nBoth, nCert, nTop := 0, 0, 0, 0, 0
 		for k, i := range insIdx {
 			finalCov[i] = fin[k]&1 != 0
 			textOK[i] = fin[k]&2 != 0
 			certified[i] = fin[k]&4 != 0
+			topOK[i] = fin[k]&8 != 0
+			if rewrites[i] != "" && finalCov[i] && topOK[i] {
+				nTop++
+			}
 			if certified[i] {
 				nCert++
 			}
@@ -1335,6 +1366,7 @@ func Run(tier string, seed int64, outDir string) *common.Meta {
 		meta.Distribution["rewrites_whose_final_text_tree_is_covered_by_final_theorem"] = nFin
 		meta.Distribution["rewrites_whose_final_tree_satisfies_the_text_roundtrip_guards"] = nText
 		meta.Distribution["rewrites_inside_both_theorem_domains"] = nBoth
+		meta.Distribution["rewrites_under_the_printed_rewrite_theorem"] = nTop
 		meta.Distribution["rewrites_certified_equivalent_by_kernel"] = nCert
 	}
 
@@ -1582,6 +1614,7 @@ Definition cases : list case := [
 	coveredRefuted := map[string]int{}
 	finalCoveredRefuted := map[string]int{}
 	bothRefuted := map[string]int{}
+	topRefuted := map[string]int{}
 	outsideRefuted, outsideClean := 0, 0
 	shrunkPerClass := map[string]int{}
 	for i, p := range pats {
@@ -1622,6 +1655,10 @@ Definition cases : list case := [
 			// every pass is proved sound at tree level and each pass started from a tree meaning what the previous
 			// one emitted: the damage can only be that Go reads the final TEXT differently from the final tree
 			finalCoveredRefuted[class]++
+			if topOK[i] {
+				topRefuted[class]++
+				meta.TieBroken = append(meta.TieBroken, fmt.Sprintf("%q => %q satisfies the hypotheses of C11_printed_rewrite_sound_partial, yet Go's regexp distinguishes them: %s", p, rewrites[i], describe(d)))
+			}
 			if textOK[i] {
 				// ... and the final tree passes the guards of the text-level round-trip theorems: the text model
 				// (classes, literal runs) claims nothing changes meaning by its new neighbours. A refutation here is a
@@ -1666,6 +1703,7 @@ Definition cases : list case := [
 	meta.Distribution["oracle_refuted_although_pass1_tree_proved_sound"] = coveredRefuted
 	meta.Distribution["oracle_refuted_although_final_tree_proved_sound"] = finalCoveredRefuted
 	meta.Distribution["oracle_refuted_inside_both_theorem_domains"] = bothRefuted
+	meta.Distribution["oracle_refuted_under_the_printed_rewrite_theorem"] = topRefuted
 	meta.Distribution["rewrites_outside_one_pass_theorem_refuted_by_oracle"] = outsideRefuted
 	meta.Distribution["rewrites_outside_one_pass_theorem_not_refuted"] = outsideClean
 	meta.Evaluations = len(pats) + semRuns + subjectsTried
